@@ -24,11 +24,14 @@ def R(mod, name, cfg="rc"):
 
 PROPS = {
     "C15": dict(
-        rules=[R("strings", "rule_unsafe_bounds"), R("strings", "rule_str_option"), R("strings", "rule_slice_tail")],
+        rules=[R("strings", "rule_unsafe_bounds"), R("strings", "rule_str_option"), R("strings", "rule_slice_tail"), R("strings", "rule_width_units")],
         clause="A string value can only be built from bounds validated against its data, so slicing cannot yield malformed "
                "text (R-UNSAFE-BOUNDS); a slice that would cut through a character becomes an error, never an unwrap "
-               "(R-STR-OPTION). Not decided: results of split/trim/replace/format, grapheme segmentation, width arithmetic.",
-        technique="construction-site census of the get_unchecked-backed type with dominating-validation analysis over MIR",
+               "(R-STR-OPTION); a constant number of bytes is cut off a string's end only after an ends_with test "
+               "(R-SLICE-TAIL); the width and precision of a format spec are compared with grapheme counts, never byte "
+               "lengths (R-WIDTH-UNITS). Not decided: results of split/trim/replace/format, grapheme segmentation.",
+        technique="construction-site census of the get_unchecked-backed type with dominating-validation analysis over MIR; "
+                  "unit taint (byte length vs grapheme count) over expression trees",
     ),
     "C19": dict(
         rules=[R("memory", "rule_build_diff", "arc"), R("memory", "rule_sibling_api", "arc"),
@@ -137,7 +140,7 @@ PROPS = {
         rules=[R("borrow", "rule_borrow"), R("arith", "rule_arith"), R("arith", "rule_rem_zero"), R("arith", "rule_accum"),
                R("arith", "rule_num_wrap"), R("narrow", "rule_narrow"), R("narrow", "rule_vm_regs"),
                R("narrow", "rule_cursor"), R("front", "rule_column_bytes"), R("strings", "rule_slice_tail"),
-               R("narrow", "rule_stale_index")],
+               R("narrow", "rule_stale_index"), R("strings", "rule_conv_unwrap")],
         clause="Panic families visible in code shape: a RefCell guard of a shared container held across re-entrant or "
                "aliasing code (R-BORROW); script-supplied i64 values reaching overflow-/zero-/shift-checked arithmetic "
                "with no dominating guard of the needed kind (R-ARITH, R-REM-ZERO); digit accumulators in input-driven "
@@ -147,7 +150,8 @@ PROPS = {
                "arithmetic (R-VM-REGS); an iterator cursor that can step past its input's length is compared with it "
                "before `len - cursor` (R-CURSOR); span columns are not used as byte offsets of str slices (R-COLUMN-BYTES), and a constant number of "
                "bytes is cut off a string's end only after an ends_with test (R-SLICE-TAIL); no panicking `[]` on a shared "
-               "container inside a loop that runs user callbacks (R-STALE-INDEX). Not decided: panic-freedom in general (unwrap/index sites justified by data "
+               "container inside a loop that runs user callbacks (R-STALE-INDEX); an unwrapped value-dependent conversion "
+               "(char::from_u32, to_digit, try_from) is dominated by a test that makes it succeed (R-CONV-UNWRAP). Not decided: panic-freedom in general (unwrap/index sites justified by data "
                "invariants are out of scope and counted as undecided where met).",
         technique="guard live-range dataflow over MIR x whole-workspace call graph (CHA + callback-through-bounds "
                   "edges); Assert-terminator census with dominating-guard classification; interval analysis of byte-width "
